@@ -48,12 +48,11 @@ theorem R_frame {b b' : B} {s s' : Spec.Broker.S} (h : R b s)
     (hc : b'.conns = b.conns) (hs : b'.sess = b.sess) (hst : b'.store = b.store)
     (hsr : b'.topics.sroot = b.topics.sroot)
     (hheld : s'.held = s.held) (hstored : s'.stored = s.stored) (hconns : s'.conns = s.conns)
-    (hov : s'.overlap = s.overlap)
     (hrets : RetInv b'.topics.rroot s'.rets) (hretsOk : ∀ r ∈ s'.rets, validName r.topic = true)
     (hids : IdsOk b'.topics.rroot) : R b' s' := by
   have hal : ∀ c, b'.alive c = b.alive c := Mqtt.Proofs.Broker.alive_congr b b' hc
-  refine ⟨inv', linv', qinv', by rw [hov]; exact h.overlap, by rw [hsr, hheld]; exact h.held,
-    by rw [hheld]; exact h.heldGood, ?_, hrets, hretsOk, hids, ?_, by rw [hconns]; exact h.sconns, ?_, ?_, ?_, ?_⟩
+  refine ⟨inv', linv', qinv', by rw [hsr, hheld]; exact h.held,
+    by rw [hheld]; exact h.heldGood, ?_, hrets, hretsOk, hids, ?_, by rw [hc]; exact h.mconns, by rw [hconns]; exact h.sconns, ?_, ?_, ?_, ?_⟩
   · intro x hx hlt; rw [hal]; rw [hheld] at hx; exact h.owners x hx hlt
   · intro c hc'; rw [hal] at hc'; exact h.connLt c hc'
   · intro c; rw [hal, spec_getConn_congr hconns]; exact h.connsIff c
@@ -93,8 +92,8 @@ theorem R_onPublish {b : B} {s : Spec.Broker.S} (h : R b s) (m : Msg)
     (onPublish b m).2.2.2 = true := by
   obtain ⟨r1, r2, r3, r4⟩ := onPublish_refines b m s h.inv.wf h.held h.owners h.rets h.retIds hg hn hq hok
   obtain ⟨fr, _⟩ := Mqtt.Proofs.BrokerQos.onPublish_frame b m
-  obtain ⟨g1, g2, g3, g4⟩ := spec_retainStep_frame s m.p
-  refine ⟨R_frame h inv' linv' qinv' fr.conns fr.sess fr.store fr.sroot g1 g2 g3 g4 r2 ?_ r3, r4, r1⟩
+  obtain ⟨g1, g2, g3⟩ := spec_retainStep_frame s m.p
+  refine ⟨R_frame h inv' linv' qinv' fr.conns fr.sess fr.store fr.sroot g1 g2 g3 r2 ?_ r3, r4, r1⟩
   exact spec_retainStep_retsOk s m.p h.retsOk hn
 
 /-! ### packets -/
